@@ -54,6 +54,29 @@ class SInt(int):
 
     __rmul__ = __mul__
 
+    def __neg__(self):
+        return self._w(-self.sym)
+
+    def __mod__(self, o):
+        # Python modulo by a symbolic positive int: decided by forking on the (small, declared) modulus
+        if isinstance(o, SInt):
+            m = o.sym.resolve(o.lo, o.hi)
+        else:
+            m = int(o)
+        if m <= 0:
+            raise ZeroDivisionError("integer modulo by zero") if m == 0 else HarnessError("negative modulus")
+        return self._w(self.sym % m)
+
+    def __floordiv__(self, o):
+        m = o.sym.resolve(o.lo, o.hi) if isinstance(o, SInt) else int(o)
+        if m <= 0:
+            raise ZeroDivisionError("integer division by zero") if m == 0 else HarnessError("negative divisor")
+        return self._w(self.sym // m)
+
+    def __abs__(self):
+        v = self.sym.resolve(self.lo, self.hi)
+        return abs(v)
+
     def __lt__(self, o):
         return self.sym < (o.sym if isinstance(o, SInt) else o)
 
@@ -195,7 +218,7 @@ def make_config(variant):
             warnings.simplefilter("ignore")
             try:
                 Sampler(prior, loglike, **kw)
-            except (ValueError, TypeError) as e:
+            except (ValueError, TypeError, ZeroDivisionError) as e:
                 raised = e
         valid = [nd.z >= 1, ess.n > 0,
                  z3.Or(sample == z3.StringVal("tpcn"), sample == z3.StringVal("rwm")),
